@@ -145,10 +145,6 @@ example : ∀ i, effLimit { maxBody := 3, overrides := [some 5] } i ≤ effLimit
   match i with
   | 0 => decide
   | i + 1 => simp [effLimit]
-def smallCfg : Cfg := { maxBody := 3, overrides := [some 5] }
-def fiveByteReq : Str :=
-  [80, 32, 47, 32, 72, 84, 84, 80, 47, 49, 46, 49, 10, 72, 111, 115, 116, 58, 120, 10, 67, 111, 110, 116, 101, 110, 116, 45,
-   76, 101, 110, 103, 116, 104, 58, 53, 10, 10, 1, 2, 3, 4, 5]
 example : Ev.closed ∉ (run smallCfg init [fiveByteReq]).out := by
   have h : (run smallCfg init [fiveByteReq]).out.filter (fun e => decide (e = Ev.closed)) = [] := by decide
   intro hm
